@@ -21,7 +21,7 @@ from vmon.res import Result, exc_name, capture_stdout
 
 ID = "C17"
 LEVEL = "exploration"
-CASES = {"quick": 3000, "thorough": 60000}
+CASES = {"quick": 3000, "thorough": 120000}
 RULE = ("seeded random histories of 5-25 ListOfDicts calls building derivation trees from 1-2 root lists: hand-on methods (filter, "
         "filter_out, sort, unique, head, tail, slicing, copy, reverse, sample, semi_join, anti_join, drop_na, append, extend, +, *), editing "
         "methods (modify, modify_if, rename, select, unselect, fill_missing_keys, inner_join, left_join), deepcopy at random points and "
